@@ -55,6 +55,7 @@ type c14Sess struct {
 	expired   bool // `expire` already used
 	released  bool // C28: the caller's own unlock / TTL took it out of the queue
 	hold      chan struct{}
+	fin       chan struct{} // closed when the Lock call has returned
 }
 
 // c14World owns one lock instance and the hook handler state of one case.
@@ -234,7 +235,7 @@ func (w *c14World) settle(key string) string {
 
 func (w *c14World) startLock(key string, ttl time.Duration, short, hold bool) (*c14Sess, string) {
 	ctx, cancel := context.WithCancel(context.Background())
-	s := &c14Sess{n: len(w.sess) + 1, key: key, short: short, cancel: cancel}
+	s := &c14Sess{n: len(w.sess) + 1, key: key, short: short, cancel: cancel, fin: make(chan struct{})}
 	w.sess = append(w.sess, s)
 	w.mu.Lock()
 	w.holdNext = hold
@@ -247,6 +248,7 @@ func (w *c14World) startLock(key string, ttl time.Duration, short, hold bool) (*
 				w.events <- c14Event{name: "panic", panic: fmt.Sprint(r)}
 			}
 		}()
+		defer close(s.fin)
 		_, _ = w.lk.Lock(ctx, key, ttl)
 	}()
 	ev, ok := w.wait(func(e c14Event) bool { return e.name == "lock.enq" })
@@ -277,6 +279,21 @@ func (w *c14World) startLock(key string, ttl time.Duration, short, hold bool) (*
 		return s, "acq"
 	}
 	return s, "wait"
+}
+
+// returned waits until the session's Lock call has returned (the cancel branch ran to its end);
+// deliberately not tied to a hook inside the removal code.
+func (w *c14World) returned(s *c14Sess) bool {
+	select {
+	case <-s.fin:
+		return true
+	case <-time.After(w.timeout):
+		if !w.broken {
+			w.broken = true
+			c14BrokenCases++
+		}
+		return false
+	}
 }
 
 func (w *c14World) release(m map[string]chan struct{}, id string) bool {
@@ -534,8 +551,8 @@ func runC14(in *bufio.Scanner, out *bufio.Writer) {
 				default:
 					res = "cancel"
 					s.gone = true
-					if ev, ok := w.waitFor("lock.rm", s.id); !ok {
-						res = "unexpected-" + ev.name
+					if !w.returned(s) {
+						res = "unexpected-timeout"
 					}
 					res += w.settle(s.key)
 				}
@@ -557,10 +574,8 @@ func runC14(in *bufio.Scanner, out *bufio.Writer) {
 			default:
 				s.gone = true
 				res = "removed"
-				if ev, ok := w.waitFor("lock.cancel", s.id); !ok {
-					res = "unexpected-" + ev.name
-				} else if ev, ok := w.waitFor("lock.rm", s.id); !ok {
-					res = "unexpected-" + ev.name
+				if !w.returned(s) {
+					res = "unexpected-timeout"
 				}
 				res += w.settle(s.key)
 			}
